@@ -379,11 +379,12 @@ def choose(state, avail, rng, pol):
             part = rng.sample(list(s.hole_cards[i]), m)
             if s.can_show_or_muck_hole_cards(tuple(part), i):
                 return op, [''.join(map(repr, part)), i]
-        if k < 0.4:
+        mp = pol.get('muck_p', 0.1)
+        if k < 0.4 * (1 - mp):
             a = None
-        elif k < 0.8:
+        elif k < 0.8 * (1 - mp):
             a = True
-        elif k < 0.9:
+        elif k < 1 - mp:
             a = ''.join(map(repr, s.hole_cards[i]))
         else:
             a = None
